@@ -1,0 +1,19 @@
+//go:build verif
+
+package nodes
+
+// VerifPermute, when set, stands in for Go's unseedable map iteration order in
+// Struct.Dependencies(): it receives the dependencies in the order the map
+// loops produced them and may reorder them (the deterministic simulation
+// harness sorts them canonically and then applies a seeded permutation, so
+// that "map order" becomes a recorded choice). It can only produce orders the
+// untagged program can already exhibit. Compiled in with -tags verif only.
+var VerifPermute func(n int, less func(i, j int) bool, swap func(i, j int))
+
+func verifPermute(deps []NodeDependency) {
+	if f := VerifPermute; f != nil {
+		f(len(deps),
+			func(i, j int) bool { return deps[i].Name() < deps[j].Name() },
+			func(i, j int) { deps[i], deps[j] = deps[j], deps[i] })
+	}
+}
